@@ -113,30 +113,20 @@ theorem uri_scheme (f n : Str) :
 example : (fromFileInst (c!"cities.csv")).map (·.src) = some (some (c!"jr://file-csv/cities.csv")) := by decide
 example : (fromFileInst (c!"g.geojson")).map (fun i => (i.name, i.src)) = some (c!"g", some (c!"jr://file/g.geojson")) := by decide
 
-/-- **Partial** (open finding F47): when some *question* (select, external select, companion …) reads
-    `${last-saved#…}` in its default, choice_filter or a logic bind, the last-saved instance is declared with the
-    conventional URI.  Full statement wanted: the same under `anyLastSaved es || secLastSaved es` (a group's or
-    repeat's bind reading it); the code does not ask sections, see `last_saved_declared_repaired`. -/
-theorem last_saved_declared_partial (es : List Elem) (lists : List (Str × List Choice)) (f : Bool) (out : List Inst)
-    (h : emitInsts [] (allInsts es lists f) = some out) (hl : anyLastSaved es = true) :
+/-- Whenever any element reads `${last-saved#…}` — a question, select, external select or companion in its default,
+    choice_filter or a logic bind, or a group / repeat in a logic bind — the last-saved instance is declared with the
+    conventional URI.  (Full: the former finding F47 is repaired by a1c327a, its guard is gone.) -/
+theorem last_saved_declared (es : List Elem) (lists : List (Str × List Choice)) (out : List Inst)
+    (h : emitInsts [] (allInsts es lists) = some out) (hl : (anyLastSaved es || secLastSaved es) = true) :
     ∃ o ∈ out, o.name = lastSavedInst.name ∧ o.src = some c!"jr://instance/last-saved" := by
-  have hm : lastSavedInst ∈ allInsts es lists f := by simp [allInsts, hl]
+  have hm : lastSavedInst ∈ allInsts es lists := by
+    simp only [allInsts, hl, if_true]; simp
   obtain ⟨o, ho, hn, hs⟩ := external_declared_once _ out h lastSavedInst hm
   exact ⟨o, ho, hn, by rw [hs]; rfl⟩
 
-/-- The full statement for the model variant with F47 repaired (`fixes/F47-last-saved-in-section-bind.diff`). -/
-theorem last_saved_declared_repaired (es : List Elem) (lists : List (Str × List Choice)) (out : List Inst)
-    (h : emitInsts [] (allInsts es lists true) = some out) (hl : (anyLastSaved es || secLastSaved es) = true) :
-    ∃ o ∈ out, o.name = lastSavedInst.name ∧ o.src = some c!"jr://instance/last-saved" := by
-  have hm : lastSavedInst ∈ allInsts es lists true := by
-    simp only [allInsts, Bool.true_and, hl, if_true]; simp
-  obtain ⟨o, ho, hn, hs⟩ := external_declared_once _ out h lastSavedInst hm
-  exact ⟨o, ho, hn, by rw [hs]; rfl⟩
-
-/-- the witness of the gap: a group whose `relevant` reads last-saved, nothing else does -/
+/-- a group whose `relevant` reads last-saved, nothing else does -/
 example : let es := [Elem.sec c!"g" [(c!"bind::relevant", c!"${last-saved#q} = 'a'")]]
-    anyLastSaved es = false ∧ secLastSaved es = true ∧ (allInsts es [] false).isEmpty = true ∧
-    (allInsts es [] true).map (·.name) = [c!"__last-saved"] := by decide +kernel
+    anyLastSaved es = false ∧ secLastSaved es = true ∧ (allInsts es []).map (·.name) = [c!"__last-saved"] := by decide +kernel
 
 example : anyLastSaved [Elem.sel c!"s" [c!"s"] [] [(c!"choice_filter", c!"a = ${last-saved#q}")] c!"select one external" c!"towns" false] = true := by
   decide +kernel
@@ -182,6 +172,96 @@ example : instText (pulldataInst c!"pd") = c!"<instance id=\"pd\" src=\"jr://fil
 example : instText (staticInst c!"l" [choiceOf [] [(c!"name", c!"a"), (c!"label", c!"A & b")]])
     = c!"<instance id=\"l\"><root><item><name>a</name><label>A &amp; b</label></item></root></instance>" := by decide +kernel
 example : (Xml.Node.elem c!"model" [] ([pulldataInst c!"pd", staticInst c!"l" []].map instNode)).WF = true := by decide +kernel
+
+/-! ## guards discharged from the data: well-formedness of the instance elements, list names from cells -/
+
+section
+open Pyxv.Xml
+
+/-- data-level well-formedness of one emitted instance: id and URI survive attribute-value normalisation, the
+    item children are XML names (the choices sheet's extra column headers) and the cell texts XML characters -/
+def instOk (i : Inst) : Bool :=
+  i.name.all attrCharOk && (match i.src with | some u => u.all attrCharOk | none => true) &&
+  i.items.all fun it => it.all fun kv => isName kv.1 && kv.2.all textCharOk
+
+theorem WFKids_map {α} (g : α → Node) (l : List α) (h : ∀ x ∈ l, (g x).WF = true) : WFKids (l.map g) = true := by
+  induction l with
+  | nil => simp [WFKids]
+  | cons x rest ih =>
+    simp only [List.map_cons, WFKids, Bool.and_eq_true]
+    exact ⟨h x (by simp), ih (fun y hy => h y (by simp [hy]))⟩
+
+theorem WFKids_append (a b : List Node) : WFKids (a ++ b) = (WFKids a && WFKids b) := by
+  induction a with
+  | nil => simp [WFKids]
+  | cons x rest ih => simp [WFKids, ih, Bool.and_assoc]
+
+theorem wf_instNode (i : Inst) (h : instOk i = true) : (instNode i).WF = true := by
+  simp only [instOk, Bool.and_eq_true] at h
+  obtain ⟨⟨hn, hs⟩, hi⟩ := h
+  unfold instNode
+  cases hsrc : i.src with
+  | some u =>
+    rw [hsrc] at hs
+    have h1 : isName c!"instance" = true := by decide
+    have h2 : isName c!"id" = true := by decide
+    have h3 : isName c!"src" = true := by decide
+    simp [Node.WF, WFKids, attrsWF, attrKeysNodup, h1, h2, h3, hn, hs]
+  | none =>
+    have h1 : isName c!"instance" = true := by decide
+    have h2 : isName c!"id" = true := by decide
+    have h4 : isName c!"root" = true := by decide
+    have h5 : isName c!"item" = true := by decide
+    have hk : WFKids (i.items.map fun it => Node.elem c!"item" [] (it.map fun kv => Node.elem kv.1 [] [.text false kv.2])) = true := by
+      apply WFKids_map
+      intro it hit
+      have hit' := List.all_eq_true.mp hi it hit
+      simp only [Node.WF, h5, attrsWF, attrKeysNodup, List.all_nil, Bool.and_self, Bool.true_and]
+      apply WFKids_map
+      intro kv hkv
+      have := List.all_eq_true.mp hit' kv hkv
+      simp only [Bool.and_eq_true] at this
+      simp [Node.WF, WFKids, attrsWF, attrKeysNodup, this.1, this.2]
+    simp [Node.WF, WFKids, attrsWF, attrKeysNodup, h1, h2, h4, hn, hk]
+
+/-- the list names are list-name cells of the sheet: a condition on those cells holds for every list name -/
+theorem list_names_from_cells (key : Str) (rows : List Cells) (P : Str → Prop)
+    (h : ∀ r ∈ rows, ∀ v, lookup key r = some v → P v) : ∀ l ∈ Spec.listNames key rows, P l := by
+  have hsub : ∀ gs : List Str, ∀ l ∈ Spec.dedup gs, l ∈ gs := by
+    intro gs
+    induction gs with
+    | nil => intro l hl; simp [Spec.dedup] at hl
+    | cons g rest ih =>
+      intro l hl
+      simp only [Spec.dedup, List.mem_cons, List.mem_filter] at hl
+      rcases hl with rfl | ⟨hl, _⟩
+      · simp
+      · exact List.mem_cons_of_mem _ (ih l hl)
+  intro l hl
+  have := hsub _ l hl
+  obtain ⟨r, hr, hv⟩ := List.mem_filterMap.mp this
+  exact h r hr l hv
+
+/-- `document_ids_unique` with its well-formedness guard discharged for the instance elements from the data
+    (`instOk` of every emitted instance); what remains is the well-formedness of the *other* children of `<model>`. -/
+theorem document_ids_unique_data (is out : List Inst) (h : emitInsts [] is = some out)
+    (attrs : List (Str × Str)) (pre post : List Node)
+    (hpre : ∀ k ∈ pre, isElem k = true) (hpost : ∀ k ∈ post, isElem k = true)
+    (npre : pre.filterMap instanceId = []) (npost : post.filterMap instanceId = [])
+    (hattrs : attrsWF attrs = true) (wpre : WFKids pre = true) (wpost : WFKids post = true)
+    (hok : ∀ i ∈ out, instOk i = true) :
+    ∃ doc, parseDoc (renderDoc false (.elem c!"model" attrs (pre ++ out.map instNode ++ post))) = some doc ∧
+      instanceIds doc = out.map (·.name) ∧ (instanceIds doc).Nodup := by
+  apply document_ids_unique is out h attrs pre post hpre hpost npre npost
+  have hm : isName c!"model" = true := by decide
+  simp only [Node.WF, hm, hattrs, WFKids_append, wpre, wpost, Bool.true_and, Bool.and_true]
+  exact WFKids_map _ _ (fun i hi => wf_instNode i (hok i hi))
+
+example : instOk (staticInst c!"l" [choiceOf [] [(c!"name", c!"a"), (c!"label", c!"A  & b"), (c!"x", c!"1")]]) = true := by
+  decide +kernel
+example : instOk (staticInst c!"a\tb" []) = false := by decide +kernel
+
+end
 
 /-! ## search(): inline items only -/
 
